@@ -7,6 +7,7 @@ Import ListNotations.
 Require Import MD.Gen.CodecTables MD.Codec.Model MD.Codec.Proofs MD.Codec.RestartProofs.
 Require Import MD.Codec.XtcModel MD.Codec.XtcProofs MD.Codec.XtcFrameProofs MD.Codec.NumProofs MD.Codec.MdcrdProofs.
 Require Import MD.Codec.XtcBitsProofs MD.Codec.XtcLiftProofs MD.Codec.XtcQuantProofs MD.Codec.DcdModel MD.Codec.DcdProofs.
+Require Import MD.Codec.GlueModel MD.Codec.GlueProofs MD.Codec.FixedCols MD.Codec.FixedColsProofs MD.Codec.Glue64Proofs.
 Open Scope Z_scope.
 
 (* Python "%w.pf" % x followed by float(): for EVERY width, precision and binary number the reader gets
@@ -321,3 +322,132 @@ Example fmt_overflow_example :
   10 ^ Z.of_nat (int_room 8 3 (dneg x) + 3) <= quant 3 x /\ field 8 3 x = None.
 Proof. vm_compute. split; [discriminate|reflexivity]. Qed.
 Print Assumptions fmt_overflow_example.
+
+(* ---------------------------------------------------------------- save/load glue (Trajectory.save_* / read_as_traj) *)
+(* the factors in_units_of multiplies with, evaluated by mdtraj's unit package on every run: the float 10.0 for
+   nanometers -> angstroms, the float 0.1 (cast to the float32 13421773 * 2^-27 by NumPy) for the way back *)
+Theorem unit_factors_standard :
+  dy_eqb (rnd32 nm_to_ang) (Dy false 10 0) = true /\ ang_per_nm = 10 /\
+  dy_eqb ang_to_nm (Dy false 3602879701896397 (-55)) = true /\
+  rnd32 ang_to_nm = Dy false 13421773 (-27).
+Proof. exact GlueProofs.unit_factors_standard. Qed.
+Print Assumptions unit_factors_standard.
+
+(* every write call of the saver of every writable extension (AST of Trajectory.save_*, regenerated on every run)
+   hands over the coordinates, hands distances (coordinates, cell lengths, box vectors) over converted from the
+   Trajectory unit to the file class's unit (or unconverted when that unit is the nanometre) and time stamps and
+   angles as they are; a dropped, reversed or foreign conversion breaks this obligation *)
+Theorem save_glue_standard : forallb save_glue_ok writable_exts = true.
+Proof. exact GlueProofs.save_glue_standard. Qed.
+Print Assumptions save_glue_standard.
+
+(* ... what the boolean says about one argument *)
+Theorem save_arg_meaning : forall u role c x, arg_ok u (role, c) = true ->
+  apply_conv (conv_of c) u x = Some (if is_distance role then to_file_unit_f u x else x).
+Proof. exact GlueProofs.arg_ok_meaning. Qed.
+Print Assumptions save_arg_meaning.
+
+(* the loader of every writable format converts file unit -> Trajectory unit and nothing else; an angstrom class
+   converts exactly the coordinates and the cell (xyz: the coordinates) *)
+Theorem load_glue_standard : forallb load_glue_ok writable_exts = true.
+Proof. exact GlueProofs.load_glue_standard. Qed.
+Print Assumptions load_glue_standard.
+
+(* "the time stamps and unit cell whenever the format stores them": the quantities each saver hands to its file
+   class are those of the format conventions (h5, nc, dtr, rst7, ncrst: coordinates, time, cell lengths, angles;
+   xtc, trr, gro: coordinates, time, box vectors; dcd, lammpstrj, pdb: coordinates and cell; mdcrd: coordinates and
+   box lengths; xyz: coordinates) *)
+Theorem format_stores_standard :
+  map (fun e => (e, stored_roles e)) writable_exts = map (fun p => (fst p, Some (snd p))) stores_std.
+Proof. exact GlueProofs.stores_standard. Qed.
+Print Assumptions format_stores_standard.
+
+(* precision of the float32 angstrom containers (DCD, NetCDF, NetCDF restart, DTR): x -> float32(10.0f * x) on save,
+   float32(0.1f * .) on load; over the rationals |load(save x) - x| <= |x| / 2^22 for every x in the normal range *)
+Theorem unit_roundtrip_error : forall x, 0 <= dmag x -> units_normal x ->
+  (Qabs (dyQ (from_file_unit true (to_file_unit_f true x)) - dyQ x) <= Qabs (dyQ x) / inject_Z (2 ^ 22))%Q.
+Proof. exact GlueProofs.unit_roundtrip_error. Qed.
+Print Assumptions unit_roundtrip_error.
+
+(* ... and every float32 of magnitude >= 2^-120 is in that range *)
+Theorem unit_roundtrip_applies : forall x, 1 <= dmag x -> -120 <= dexp x -> units_normal x.
+Proof. exact GlueProofs.units_normal_float32. Qed.
+Print Assumptions unit_roundtrip_applies.
+
+(* non-vacuity: 0.3f goes to 3.0f and comes back as 0.3f *)
+Example unit_roundtrip_example :
+  let x := Dy false 10066330 (-25) in
+  units_normal x /\ dy_eqb (to_file_unit_f true x) (to_file_unit true x) = true /\
+  dy_eqb (from_file_unit true (to_file_unit_f true x)) (Dy false 10066330 (-25)) = true.
+Proof. cbv zeta. split; [apply GlueProofs.units_normal_float32; cbn; lia|]. split; vm_compute; reflexivity. Qed.
+Print Assumptions unit_roundtrip_example.
+
+(* stated precision of the text fields, over the rationals: a nanometre field with p decimals (gro) holds the
+   coordinate to half a unit of the last place ... *)
+Theorem nm_field_precision : forall p x, 0 <= dmag x ->
+  (Qabs (inject_Z (quant p x) / inject_Z (10 ^ Z.of_nat p) - absQ x) <= (1 # 2) / inject_Z (10 ^ Z.of_nat p))%Q.
+Proof. exact GlueProofs.nm_field_precision. Qed.
+Print Assumptions nm_field_precision.
+
+(* ... an angstrom field with p decimals (mdcrd, pdb, xyz, lammpstrj: 3; rst7: 7) holds ten times the nanometre
+   coordinate to half a unit of the last place plus the float32 rounding of the conversion *)
+Theorem angstrom_field_precision : forall p x, 0 <= dmag x ->
+  -149 - dexp x <= bitlen (dmag x * ang_per_nm) - 24 ->
+  (Qabs (inject_Z (quant p (to_file_unit true x)) / inject_Z (10 ^ Z.of_nat p) - 10 * absQ x)
+    <= (1 # 2) / inject_Z (10 ^ Z.of_nat p) + 10 * absQ x / inject_Z (2 ^ 24))%Q.
+Proof. exact GlueProofs.angstrom_field_precision. Qed.
+Print Assumptions angstrom_field_precision.
+
+(* ---------------------------------------------------------------- fixed-column readers *)
+(* k consecutive fields of equal width that fit are read back by slicing at that width (any width, precision, count) *)
+Theorem fixed_fields_roundtrip : forall w p xs fs rest, Forall (fun x => 0 <= dmag x) xs ->
+  map_opt (field w p) xs = Some fs ->
+  map_opt parse_num (slices w (length xs) (concat fs ++ rest)) = Some (map (qnum p) xs).
+Proof. exact FixedColsProofs.slices_fields. Qed.
+Print Assumptions fixed_fields_roundtrip.
+
+(* AMBER restart (rst7): every line -- two atoms, the last atom of an odd count, or the box line -- is read back by
+   float(line[j : j + 12]) as the quantised numbers; reader width regenerated from amberrst.py *)
+Theorem rst7_line_roundtrip : forall xs fs, Forall (fun x => 0 <= dmag x) xs ->
+  map_opt (field rst7_w rst7_p) xs = Some fs ->
+  rst7_line xs = concat fs /\ rst7_line_read (length xs) (rst7_line xs) = Some (map (qnum rst7_p) xs).
+Proof. exact FixedColsProofs.rst7_line_roundtrip. Qed.
+Print Assumptions rst7_line_roundtrip.
+
+(* PDB: PdbStructure's six column pairs (regenerated from pdbstructure.py) read the CRYST1 record the writer's format
+   string produces back as the quantised lengths and angles, whenever they fit their fields *)
+Theorem cryst1_roundtrip : forall a b c al be ga fa fb fc fal fbe fga,
+  0 <= dmag a -> 0 <= dmag b -> 0 <= dmag c -> 0 <= dmag al -> 0 <= dmag be -> 0 <= dmag ga ->
+  field cryst_len_w cryst_len_p a = Some fa -> field cryst_len_w cryst_len_p b = Some fb ->
+  field cryst_len_w cryst_len_p c = Some fc ->
+  field cryst_ang_w cryst_ang_p al = Some fal -> field cryst_ang_w cryst_ang_p be = Some fbe ->
+  field cryst_ang_w cryst_ang_p ga = Some fga ->
+  cryst1_read (cryst1_line [a; b; c] [al; be; ga]) =
+    Some [qnum cryst_len_p a; qnum cryst_len_p b; qnum cryst_len_p c;
+          qnum cryst_ang_p al; qnum cryst_ang_p be; qnum cryst_ang_p ga].
+Proof. exact FixedColsProofs.cryst1_roundtrip. Qed.
+Print Assumptions cryst1_roundtrip.
+
+(* non-vacuity: a 30 x 40.5 x 50 angstrom cell with angles 90, 75.5, 120 fits and reads back *)
+Example cryst1_example :
+  let l := [Dy false 30 0; Dy false 81 (-1); Dy false 50 0] in let a := [Dy false 90 0; Dy false 151 (-1); Dy false 120 0] in
+  map_opt (field cryst_len_w cryst_len_p) l <> None /\ map_opt (field cryst_ang_w cryst_ang_p) a <> None /\
+  string_of_list_ascii (cryst1_line l a) = "CRYST1   30.000   40.500   50.000  90.00  75.50 120.00 P 1           1 "%string /\
+  cryst1_read (cryst1_line l a) = Some [(false, 30000, 3%nat); (false, 40500, 3%nat); (false, 50000, 3%nat);
+                                        (false, 9000, 2%nat); (false, 7550, 2%nat); (false, 12000, 2%nat)].
+Proof. cbv zeta. repeat split; vm_compute; try discriminate; reflexivity. Qed.
+Print Assumptions cryst1_example.
+
+(* ---------------------------------------------------------------- NetCDF loader (product formed in binary64) *)
+(* netCDF4 hands out masked arrays, numpy.ma multiplies them by the 0-d float64 array 0.1: the loaded number is
+   float32(float64(0.1 * y)).  Same bound as unit_roundtrip_error, for that path. *)
+Theorem unit_roundtrip_error_via64 : forall x, 0 <= dmag x -> units_normal_via64 x ->
+  (Qabs (dyQ (from_file_unit_via64 true (to_file_unit_f true x)) - dyQ x) <= Qabs (dyQ x) / inject_Z (2 ^ 22))%Q.
+Proof. exact Glue64Proofs.unit_roundtrip_error_via64. Qed.
+Print Assumptions unit_roundtrip_error_via64.
+
+Example unit_roundtrip_via64_example :
+  let x := Dy false 10066330 (-25) in
+  units_normal_via64 x /\ dy_eqb (from_file_unit_via64 true (to_file_unit_f true x)) (Dy false 10066330 (-25)) = true.
+Proof. cbv zeta. split; [repeat split; vm_compute; discriminate|vm_compute; reflexivity]. Qed.
+Print Assumptions unit_roundtrip_via64_example.
